@@ -100,12 +100,26 @@ def run_call(call, weights, workdir, idx):
     from pyndl import ndl, wh
     if call.get("clock") is None:
         return run_call_(call, weights, workdir, idx)
-    real = (ndl.time, wh.time)
-    ndl.time = wh.time = FakeClock(call["clock"])
+    # pin the clock the learners read, whichever way they reach it (`import time` or `from time import ...`)
+    import time as _time
+    clock = FakeClock(call["clock"])
+    for name in dir(_time):
+        if not name.startswith("__") and not hasattr(clock, name):
+            setattr(clock, name, getattr(_time, name))
+    saved = []
+    for mod in (ndl, wh):
+        if hasattr(mod, "time"):
+            saved.append((mod, "time", mod.time))
+            mod.time = clock
+        for fn in ("perf_counter", "process_time", "strftime"):
+            if hasattr(mod, fn):
+                saved.append((mod, fn, getattr(mod, fn)))
+                setattr(mod, fn, getattr(clock, fn))
     try:
         return run_call_(call, weights, workdir, idx)
     finally:
-        ndl.time, wh.time = real
+        for mod, name, value in saved:
+            setattr(mod, name, value)
 
 
 def run_call_(call, weights, workdir, idx):
